@@ -1,5 +1,5 @@
 (* C12 model runner: reads "ID<TAB>INPUT" lines, prints "ID<TAB>MODEL<TAB>SPEC".
-   INPUT kinds (see harness/cmd/c12/main.go): isprint | qr LO HI | qs STR | val J VALUE | hist N OPS | lit STR PF | orc STR *)
+   INPUT kinds (see harness/cmd/c12/main.go): isprint | qr LO HI | qs STR | val J VALUE | pty J VALUE (printed under (pretty true)) | scr / pts EXPR VALUE | hist N OPS | lit STR PF | slit FORM ITEMS | orc STR *)
 open Model
 open Zutil
 
@@ -332,6 +332,31 @@ let () =
                    Printf.sprintf "n=%d len=%d {%s}" (List.length kv) (List.length kv) (String.concat " ; " kv)
                  | _ -> "?") in
              ("P=" ^ items_str text, "W=" ^ content)
+           | "slit" ->
+             (* a string / backtick / character literal: FORM N (r RUNE | e RUNE)... *)
+             let form = next s in
+             let n = num s in
+             let its = List.init n (fun _ -> let k = next s in let c = z_of_int (num s) in if k = "e" then LEsc c else LRaw c) in
+             let q = z_of_int (match form with "q" -> 34 | "b" -> 96 | _ -> 39) in
+             let raws = List.map (fun it -> match it with LRaw c -> c | LEsc c -> c) its in
+             let wf = List.for_all (fun it -> litem_wf q it) its in
+             let text = (match form, its with
+                 | "q", _ -> str_spelling its
+                 | "b", _ -> bt_spelling raws
+                 | _, [it] -> chr_spelling it
+                 | _, _ -> []) in
+             let (st, ex) = read text in
+             let r = String.concat " | " (status_str st :: List.map canon_sexp ex) in
+             let scalar c = let i = int_of_z c in i >= 0 && i <= 0x10FFFF && not (i >= 0xD800 && i <= 0xDFFF) in
+             let spec =
+               (match form with
+                | "q" -> (match denote its with Some rs when wf && List.for_all scalar rs -> "D | " ^ enc_runes "S" rs | _ -> "-")
+                | "b" -> if List.for_all (fun it -> match it with LRaw c -> int_of_z c <> 96 && scalar c | LEsc _ -> false) its
+                  then "D | " ^ enc_runes "S" raws else "-"
+                | _ -> (match its with
+                    | [it] -> (match litem_rune it with Some c when wf && scalar c -> "D | C " ^ string_of_z c | _ -> "-")
+                    | _ -> "-")) in
+             ("T=" ^ items_str text ^ " ;; R=" ^ r, "R=" ^ spec)
            | "lit" ->
              let sp = str_runes s in
              let pf = next s in
